@@ -128,12 +128,40 @@ Definition spec_lines (stream : bytes) (e : ending) (LS : list bytes) (tl : byte
   forall m id, md_dispatch_dirty m = true ->
     interp m id stream e = let '(st', ys) := run_lines m (w_init id) LS in ys ++ finish m (set_line st' tl false) e.
 
-Theorem parser_fields en bc chunks e :
-  ending_ok e -> fitsb (bound_of en bc) (concat chunks) = true ->
-  exists LS tl, pf_run (make_parser en bc (mkrd chunks e 0)) (fields_of LS) (end_err tl e) /\
-                spec_lines (concat chunks) e LS tl.
+(* the first token (after the skipped CR/LF bytes [nls]) followed by a tokenised rest [X] *)
+Lemma first_token_spec nls tok X d4 ls1 tl1 LS1 tl e :
+  all_nl nls -> headok tok -> d4 = match nls with [] => unbom tok | _ => tok end -> wlines d4 = (ls1, tl1) ->
+  (shape tok \/ X = []) -> (tl1 = [] -> toks X LS1 tl) -> (tl1 <> [] -> LS1 = [] /\ tl = tl1) ->
+  spec_lines (nls ++ tok ++ X) e (ls1 ++ LS1) tl.
 Proof.
-  intros He Hfit.
+  intros Hnl Hh Hd4 Hw1 Hsh Ht1 Ht2 m id Hm.
+  destruct nls as [|x nls'].
+  - (* no byte skipped: the BOM, if any, is removed *)
+    cbn [app]. unfold interp. fold (cont m (w_init id) (strip_bom (tok ++ X)) e).
+    rewrite (strip_bom_tok tok X Hsh), <- Hd4.
+    change (w_init id) with (set_line (w_init id) [] false).
+    apply (spec_first m d4 X ls1 tl1 LS1 tl e (w_init id) Hm Hw1); [|exact Ht1|exact Ht2].
+    destruct Hsh as [Hs|Hs]; [left; rewrite Hd4; now apply shape_unbom|right; exact Hs].
+  - (* bytes skipped: the stream starts with a CR/LF byte, there is no BOM to remove *)
+    subst d4. assert (Hx : is_nl x = true) by (inversion Hnl; assumption).
+    pose proof (toks_step (x :: nls') tok X ls1 tl1 LS1 tl Hnl Hh Hw1 Hsh Ht1 Ht2) as Htoks.
+    pose proof (spec_toks m _ (ls1 ++ LS1) tl e Hm Htoks (w_init id) false eq_refl) as Hs.
+    change (set_line (w_init id) [] false) with (w_init id) in Hs.
+    rewrite <- Hs. unfold cont, interp. cbn [app].
+    rewrite (strip_bom_nl x _ Hx). reflexivity.
+Qed.
+
+(* Parser.Next from the initial parser of an entry point: either the whole stream is interpreted, or tokens
+   consume a prefix P of it and Parser.Err() is ErrTooLong *)
+Definition top_result (en : entry) (bc : bufcfg) (chunks : list bytes) (e : ending) : Prop :=
+  let p0 := make_parser en bc (mkrd chunks e 0) in
+  (exists LS tl, pf_run p0 (fields_of LS) (end_err tl e) /\ spec_lines (concat chunks) e LS tl) \/
+  (exists LS P, pf_run p0 (fields_of LS) (Some ETooLong) /\ tpath (bound_of en bc) (concat chunks) P /\
+                forall e', spec_lines P e' LS []).
+
+Theorem parser_fields_gen en bc chunks e : ending_ok e -> top_result en bc chunks e.
+Proof.
+  intros He. unfold top_result.
   set (B := bound_of en bc) in *. set (p0 := make_parser en bc (mkrd chunks e 0)).
   destruct (make_parser_init en bc (mkrd chunks e 0)) as (Hfp & Hfirst & Hnil & Hrd & Hdata & Hsc). fold p0 in Hfp, Hfirst, Hnil, Hrd, Hdata, Hsc.
   destruct (make_parser_inv en bc chunks e) as [Hinv _]. fold p0 B in Hinv.
@@ -188,15 +216,12 @@ Proof.
     assert (Hp1r : p_rest p1 = skipn adv R) by exact Hrest'.
     rewrite (parser_next_any_fuel B p1) in Hpn; [|exact Hinv'|rewrite Hp1r; clear - HlR HlR'; lia].
     assert (Hc1 : pcond B e p1).
-    { apply (pcond_after B e R sc' rd' f4 n0 eof adv tok); try assumption.
-      - exists 0%N. now apply fits_from_start.
-      - destruct Hb4 as [Hb|[Hb|Hb]]; [left; left; exact Hb|left; right; left; exact Hb|].
-        destruct tok as [|t0 tok'].
-        + right. destruct HD as [Hm|Hl]; [|exact Hl]. exfalso.
-          destruct (shape_of_mid _ _ _ _ _ Hn0 Hsf Hm) as [ls Hs]. cbn in Hs. injection Hs as Hs. destruct ls; discriminate.
-        + left. right. right. rewrite Hb. discriminate. }
-    assert (Hsh4 : shape (fp_data f4) \/ skipn adv R = []).
-    { destruct Hsh as [Hs|Hs]; [left|right; exact Hs]. rewrite Hd4. destruct nls; [now apply shape_unbom|exact Hs]. }
+    { apply (pcond_after B e sc' rd' f4); try assumption.
+      destruct Hb4 as [Hb|[Hb|Hb]]; [left; left; exact Hb|left; right; left; exact Hb|].
+      destruct tok as [|t0 tok'].
+      + right. destruct HD as [Hm|Hl]; [|exact Hl]. exfalso.
+        destruct (shape_of_mid _ _ _ _ _ Hn0 Hsf Hm) as [ls Hs]. cbn in Hs. injection Hs as Hs. destruct ls; discriminate.
+      + left. right. right. rewrite Hb. discriminate. }
     destruct (wlines (fp_data f4)) as [ls1 tl1] eqn:Hw1.
     assert (Htl1 : tl1 <> [] -> last_state p1).
     { intros Hne. destruct HD as [Hm|Hl]; [|exact Hl]. exfalso.
@@ -204,35 +229,55 @@ Proof.
       assert (Hs4 : shape (fp_data f4)) by (rewrite Hd4; destruct nls; [now apply shape_unbom|exact Hs0]).
       destruct Hs4 as [ls Hs]. rewrite Hw1 in Hs. injection Hs as _ Hs. congruence. }
     destruct (pf_tokens B e He (S (length (fp_data (p_fp p1)) + 2 * length (p_rest p1))) p1 ls1 tl1 (Nat.lt_succ_diag_r _) Hc1 Hw1 Htl1)
-      as (LS1 & tl & Hrun & Ht1 & Ht2).
-    exists (ls1 ++ LS1), tl. rewrite fields_of_app. split; [eapply pf_run_eq; eassumption|].
-    intros m id Hm.
-    rewrite Hp1r in Ht1.
-    destruct nls as [|x nls'].
-    + (* no byte skipped: the BOM, if any, is removed *)
-      cbn [app] in HR. unfold interp. fold (cont m (w_init id) (strip_bom R) e).
-      rewrite HR, (strip_bom_tok tok (skipn adv R) Hsh), <- Hd4.
-      change (w_init id) with (set_line (w_init id) [] false).
-      apply (spec_first m (fp_data f4) (skipn adv R) ls1 tl1 LS1 tl e (w_init id) Hm Hw1 Hsh4 Ht1 Ht2).
-    + (* bytes skipped: the stream starts with a CR/LF byte, there is no BOM to remove *)
-      rewrite Hd4 in Hw1.
-      assert (Hx : is_nl x = true) by (inversion Hnl; assumption).
-      assert (Htoks : toks R (ls1 ++ LS1) tl).
-      { rewrite HR. apply (toks_step (x :: nls') tok _ ls1 tl1 LS1 tl Hnl Hh Hw1 Hsh Ht1 Ht2). }
-      pose proof (spec_toks m R (ls1 ++ LS1) tl e Hm Htoks (w_init id) false eq_refl) as Hs.
-      change (set_line (w_init id) [] false) with (w_init id) in Hs.
-      rewrite <- Hs. unfold cont, interp.
-      assert (Hsb : strip_bom R = R) by (rewrite HR; apply strip_bom_nl; exact Hx).
-      rewrite Hsb. reflexivity.
+      as [(LS1 & tl & Hrun & Ht1 & Ht2)|(LS1 & P' & Hrun & Ht0 & Hnl1 & Hpath & Htoks)].
+    + left. exists (ls1 ++ LS1), tl. rewrite fields_of_app. split; [eapply pf_run_eq; eassumption|].
+      rewrite Hp1r in Ht1. rewrite HR.
+      exact (first_token_spec nls tok (skipn adv R) (fp_data f4) ls1 tl1 LS1 tl e Hnl Hh Hd4 Hw1 Hsh Ht1 Ht2).
+    + destruct HD as [Hm|Hl]; [|contradiction].
+      right. exists (ls1 ++ LS1), (firstn adv R ++ P'). rewrite fields_of_app.
+      split; [eapply pf_run_eq; eassumption|]. split.
+      * rewrite Hp1r in Hpath. exact (tp_tok B _ n0 eof adv tok P' Hn0 HnB Hsf Hm Hpath).
+      * intros e'. rewrite Hfa, <- app_assoc.
+        apply (first_token_spec nls tok P' (fp_data f4) ls1 tl1 LS1 [] e' Hnl Hh Hd4 Hw1).
+        -- left. exact (shape_of_mid _ _ _ _ _ Hn0 Hsf Hm).
+        -- intros _. exact Htoks.
+        -- intros Hne. contradiction.
   - (* no token at all *)
     destruct Hpost as (Hst & Hcase). rewrite Hfirst in Hst. injection Hst as -> ->.
     destruct Hcase as [(Hne & Htoo & Hlen & Hmore)|(HR & Herr2 & Hrest2)].
-    + exfalso. apply (fits_no_toolong B R 0%N (N.to_nat B) (fits_from_start B R Hfit)); [apply N2Nat.id|exact Hlen|exact Hmore].
-    + exists [], []. cbn [fields_of flat_map].
+    + right. exists [], []. cbn [fields_of flat_map].
+      assert (Hse : sc_error sc' = Some ETooLong) by (unfold sc_error; rewrite Htoo; reflexivity).
+      rewrite Hse, Hnil in Hpn.
+      pose proof (parser_err_toolong sc' rd' (p_fp p0) true Htoo) as Hpe. rewrite Hse in Hpe.
+      split; [rewrite <- Hpe; apply pf_end; exact Hpn|].
+      split; [apply tp_here; split; assumption|]. intros e' m id Hm. reflexivity.
+    + left. exists [], []. cbn [fields_of flat_map].
       pose proof (parser_err_end e sc' rd' (p_fp p0) true (p_sc_nil p0) [] He Herr2 Hnil) as Hpe.
       rewrite <- Hpe by (rewrite Hfp; reflexivity).
       split; [apply pf_end; exact Hpn|].
       intros m id Hm. rewrite HR. reflexivity.
+Qed.
+
+(* under the limit: the whole stream *)
+Theorem parser_fields en bc chunks e :
+  ending_ok e -> fitsb (bound_of en bc) (concat chunks) = true ->
+  exists LS tl, pf_run (make_parser en bc (mkrd chunks e 0)) (fields_of LS) (end_err tl e) /\
+                spec_lines (concat chunks) e LS tl.
+Proof.
+  intros He Hfit. destruct (parser_fields_gen en bc chunks e He) as [H|(LS & P & _ & Hpath & _)]; [exact H|].
+  exfalso. exact (fits_tpath _ _ _ Hpath 0%N (fits_from_start _ _ Hfit)).
+Qed.
+
+(* under the limit, Parser.Err() after the last field is the specification's end condition - never ErrTooLong,
+   unless that is what the reader itself failed with *)
+Corollary parser_err_fits en bc chunks e :
+  ending_ok e -> fitsb (bound_of en bc) (concat chunks) = true ->
+  exists fs tl, pf_run (make_parser en bc (mkrd chunks e 0)) fs (end_err tl e) /\
+                (end_err tl e = Some ETooLong -> e = ReadError ETooLong).
+Proof.
+  intros He Hfit. destruct (parser_fields en bc chunks e He Hfit) as (LS & tl & Hrun & _).
+  exists (fields_of LS), tl. split; [exact Hrun|].
+  destruct e as [|x]; cbn [end_err]; [destruct tl; discriminate|]. now intros [= ->].
 Qed.
 
 (* ---- the read loop on top ------------------------------------------------------------------------------------------ *)
@@ -268,3 +313,22 @@ Proof.
   rewrite <- (Hspec (mode_for conn) last_id Hm).
   destruct stop as [k|]; cbn [cutd firstn']; [now rewrite Nat.sub_0_r|reflexivity].
 Qed.
+
+(* the two entry points *)
+Corollary read_run_read bc last_id chunks e stop :
+  ending_ok e -> fitsb (bound_of EntryRead bc) (concat chunks) = true ->
+  fst (read_run EntryRead bc last_id chunks e stop)
+  = (firstn' stop (vis false (interp gosse_read last_id (concat chunks) e)), EndNormal).
+Proof. intros He Hf. rewrite (read_run_spec EntryRead bc last_id chunks e stop He Hf). reflexivity. Qed.
+
+Corollary read_run_conn bc last_id chunks e stop :
+  ending_ok e -> fitsb (bound_of EntryConn bc) (concat chunks) = true ->
+  fst (read_run EntryConn bc last_id chunks e stop)
+  = (firstn' stop (vis true (interp gosse_conn last_id (concat chunks) e)), EndNormal).
+Proof. intros He Hf. rewrite (read_run_spec EntryConn bc last_id chunks e stop He Hf). reflexivity. Qed.
+
+Corollary read_run_fits en bc last_id chunks e stop :
+  ending_ok e -> fitsb (bound_of en bc) (concat chunks) = true ->
+  fst (read_run en bc last_id chunks e stop)
+  = (firstn' stop (vis (en_conn en) (interp (mode_for (en_conn en)) last_id (concat chunks) e)), EndNormal).
+Proof. intros He Hf. rewrite (read_run_spec en bc last_id chunks e stop He Hf). reflexivity. Qed.
